@@ -26,7 +26,7 @@
 (*             switched on ("F18", "F19": see known_findings.json); with    *)
 (*             Dev = {} the module is the design, with all of them the code *)
 (***************************************************************************)
-EXTENDS Naturals, Integers, Sequences, FiniteSets, TLC, Props
+EXTENDS Naturals, Integers, Sequences, FiniteSets, TLC, Props, EngineChoice
 
 CONSTANTS Def, StartAt, Inputs, Outcomes, MaxCrash, Durable, Express, Dev
 
@@ -392,22 +392,7 @@ MapDelegate(x, id, ev) ==
 (* typed core of spec/Choice.tla (Layer A decides the full operator table; what this layer adds is the protocol   *)
 (* around a data-dependent transition: which event is published, what the history says, when the trigger is       *)
 (* acknowledged, and what happens to a branch whose Choice matches nothing).                                      *)
-RECURSIVE Lookup(_, _), RuleHolds(_, _)
-Lookup(v, path) == IF path = <<>> THEN [ok |-> TRUE, v |-> v]
-                   ELSE IF Head(path) \in DOMAIN v THEN Lookup(v[Head(path)], Tail(path))
-                   ELSE [ok |-> FALSE, v |-> 0]
-RuleHolds(r, v) ==
-    CASE r.kind = "and" -> \A i \in 1..Len(r.subs) : RuleHolds(r.subs[i], v)
-      [] r.kind = "or"  -> \E i \in 1..Len(r.subs) : RuleHolds(r.subs[i], v)
-      [] r.kind = "not" -> ~RuleHolds(r.subs[1], v)
-      [] r.kind = "cmp" ->
-           LET l == Lookup(v, r.path)
-           IN CASE r.op = "present" -> l.ok = r.val
-                [] r.op = "eq" -> l.ok /\ l.v = r.val
-                [] r.op = "gt" -> l.ok /\ l.v > r.val
-                [] r.op = "lt" -> l.ok /\ l.v < r.val
-                [] r.op = "ge" -> l.ok /\ l.v >= r.val
-                [] r.op = "le" -> l.ok /\ l.v <= r.val
+(* Lookup and RuleHolds live in EngineChoice.tla (a constant module, so that MC_EngineChoice can check them against Layer A) *)
 ChoiceValue(d) == IF IsErr(d) THEN [Error |-> d.e] ELSE d.v
 ChoiceNext(st, d) ==
     LET v == ChoiceValue(d)
